@@ -571,7 +571,8 @@ def href_stream(H, rep, drv, rng, n, stats, d: Path):
                     # known class (decidable from the inputs alone): the reference as `convert_link` makes it - the URL itself,
                     # or the path relative to <output dir>/<..>/non-existent dir -, read as a path from the working directory,
                     # lies below the output directory
-                    first = url if kind == "remote" else os.path.relpath(str(url), str(cur))
+                    here = base / Path(ctx_url).parent.parent / ned
+                    first = url if kind == "remote" else os.path.relpath(str(url), str(here))
                     tag = os.path.normpath(os.path.join(str(cwd), first))
                     fid = "C16-relative-reference-reread-from-working-directory" if tag.startswith(str(base) + "/") else None
                     rep.failing_input(dict(case, href=href, oracle="a [[...]] reference to an imported entity, followed from the page "
